@@ -7,7 +7,7 @@ From Coq Require Import List NArith Permutation.
 From Coq Require Import ZArith.
 From XotV Require Import Model.Base Model.Zipper Model.Access Model.Store Model.Manip Spec.DocOrder Spec.Shape
                          Proofs.ZipperProofs Proofs.AccessProofs Proofs.StoreProofs Proofs.InvProofs Proofs.InvSteps
-                         Proofs.InvOps Proofs.InvHist Proofs.InvApi.
+                         Proofs.InvOps Proofs.InvHist Proofs.InvApi Spec.NoAdj Proofs.NoAdjOps.
 From XotV Require Import Model.Unpretty Model.Interning Model.NsTools Model.Hist.
 Import ListNotations.
 Open Scope N_scope.
@@ -165,4 +165,36 @@ Example C04_shape_rejects :
   /\ keys (FCons 0 (VElement 5) (FCons 1 (VAttribute 7 [1]) FNil (FCons 2 (VAttribute 7 [2]) FNil FNil)) FNil) = false
   /\ keys (FCons 0 (VElement 5) (FCons 1 (VNamespace 3 1) FNil (FCons 2 (VNamespace 3 2) FNil FNil)) FNil) = false
   /\ keys (FCons 0 (VElement 5) (FCons 1 (VNamespace 3 1) FNil (FCons 2 (VAttribute 3 [2]) FNil FNil)) FNil) = true.
+Proof. vm_compute. repeat split. Qed.
+
+(* ---------- "as long as text consolidation has never been switched off, no two text nodes are adjacent" ---------- *)
+
+(* [noadj st]: in no child list of any node of the store do two text nodes follow one another (Spec/NoAdj.v; the parentless
+   nodes at the top of the store are no siblings).
+   PARTIAL: proved for every call of the node-level API except replace, element_wrap and element_unwrap ([plain_op]: these
+   three pass through a state in which the two old neighbours of the node touch before the call repairs it, and the proof of
+   the repair is not done; they are covered by the structural oracle of the correspondence run).  A call that switches
+   consolidation off is excluded by the property itself. *)
+Theorem C04_no_adjacent_text_step_partial :
+  forall st o, Good st -> cons st = true -> noadj st -> plain_op o = true ->
+    noadj (fst (mstep st o)) /\ cons (fst (mstep st o)) = true.
+Proof. intros st o G Hc Hna Hp. split; [apply noadj_mstep; assumption|apply cons_mstep; assumption]. Qed.
+Print Assumptions C04_no_adjacent_text_step_partial.
+
+(* hence along every history of such calls from the empty store (consolidation is on in a new Xot) *)
+Theorem C04_no_adjacent_text_history_partial :
+  forall ops, forallb plain_op ops = true -> noadj (mfinal init_state ops) /\ cons (mfinal init_state ops) = true.
+Proof. intros ops Hp. exact (noadj_history ops init_state Good_init eq_refl eq_refl Hp). Qed.
+Print Assumptions C04_no_adjacent_text_history_partial.
+
+(* non-vacuity: a history in which text is appended next to text, moved between text nodes and a separating element is
+   removed ends without adjacent text (the merges happen); the predicate does reject adjacent text; and with consolidation
+   switched off the same calls do leave two text nodes side by side *)
+Example C04_noadj_example :
+  let ops := [ONewDoc; ONewEl 5; OAppend 0 1; ONewText [104]; OAppend 1 2; ONewEl 6; OAppend 1 3; ONewText [105]; OAppend 1 4;
+              ONewText [106]; OInsertAfter 2 5; ORemove 3] in
+  forallb plain_op ops = true
+  /\ store (mfinal init_state ops) = FCons 0 VDocument (FCons 1 (VElement 5) (FCons 2 (VText [104; 106; 105]) FNil FNil) FNil) FNil
+  /\ na (FCons 0 (VElement 5) (FCons 1 (VText [104]) FNil (FCons 2 (VText [105]) FNil FNil)) FNil) = false
+  /\ na (store (mfinal init_state (OCons false :: ops))) = false.
 Proof. vm_compute. repeat split. Qed.
